@@ -223,6 +223,10 @@ func (q *Queue) Init(cfg *config.Map) error {
 		return err
 	}
 
+	if maxParallelism <= 0 {
+		return errors.New("queue: max_parallelism must be greater than zero")
+	}
+
 	if q.dsnPipeline != nil {
 		if q.autogenMsgDomain == "" {
 			return errors.New("queue: autogenerated_msg_domain is required if bounce {} is specified")
